@@ -85,9 +85,9 @@ pub fn spell_token(t: &str, rng: &mut Rng) -> String {
         "X" => rng.pick(&["X", "Q", "b", "l", "p", "z9"]).to_string(),
         "B3" => "B3".to_string(),
         "O" => rng.pick(&["10:10", "10.9:10.2", "10:10:7"]).to_string(),
-        "A" => rng.pick(&["50:50", " 50 : 50 "]).to_string(),
-        "A2" => rng.pick(&["50.9:50.2", "50.999:50.5"]).to_string(),
-        "Bc" => "90:90".to_string(),
+        "A" => rng.pick(&["50:30", " 50 : 30 "]).to_string(),
+        "A2" => rng.pick(&["50.9:30.2", "50.999:30.5"]).to_string(),
+        "Bc" => "90:50".to_string(),
         "Cn" => rng.pick(&["100:0", "100:0.4", "100:-0.9"]).to_string(),
         "bad" => rng.pick(&["1:", "5", "1e9:0", ":5", "7:x", "-x:5", "131073:0", "0:-131073"]).to_string(),
         "empty" => String::new(),
@@ -227,8 +227,8 @@ pub fn spell_line(ln: &Value, rng: &mut Rng) -> String {
 fn point_name(x: f32, y: f32) -> String {
     match (x as i64, y as i64, x.fract() == 0.0 && y.fract() == 0.0) {
         (10, 10, true) => "O".into(),
-        (50, 50, true) => "A".into(),
-        (90, 90, true) => "Bc".into(),
+        (50, 30, true) => "A".into(),
+        (90, 50, true) => "Bc".into(),
         (100, 0, true) => "Cn".into(),
         _ => format!("?{x}:{y}"),
     }
@@ -513,4 +513,70 @@ pub fn record(args: &Args, s: &mut Summary) {
     s.sample(json!({"first_events": out.iter().skip(1).take(3).cloned().collect::<Vec<_>>()}));
     s.extra.insert("events".into(), json!(out.len()));
     write_ndjson(trace, &out);
+}
+
+/// C06 on long random sequences: the objects of (all lines) == the objects of (only the accepted lines),
+/// on the public state and through the decoder.
+pub fn c06_relation(args: &Args, s: &mut Summary) {
+    let runs = args.opt_usize("runs", 40);
+    let nlines = args.opt_usize("lines", 120);
+    let mut rng = Rng::new(args.seed);
+    for run in 0..runs {
+        let lines: Vec<String> = (0..nlines)
+            .map(|_| {
+                let mut ln = random_line(&mut rng);
+                if geti(&ln, "rep") == 9000 {
+                    ln["rep"] = json!(3);
+                }
+                // rejections should be frequent here
+                if rng.chance(1, 4) {
+                    let k = *rng.pick(&["tc", "tyc", "sc", "repc", "lenc"]);
+                    ln[k] = json!("bad");
+                }
+                spell_line(&ln, &mut rng)
+            })
+            .collect();
+        let r = guarded(&format!("hitobj c06 run {run}"), || {
+            let mut st = HitObjectsState::create(14);
+            let verdicts: Vec<bool> = lines.iter().map(|t| HitObjects::parse_hit_objects(&mut st, t).is_ok()).collect();
+            let with: Vec<Value> = st.hit_objects.iter().map(proj_obj).collect();
+            let mut st2 = HitObjectsState::create(14);
+            for (t, ok) in lines.iter().zip(verdicts.iter()) {
+                if *ok {
+                    let _ = HitObjects::parse_hit_objects(&mut st2, t);
+                }
+            }
+            let without: Vec<Value> = st2.hit_objects.iter().map(proj_obj).collect();
+            let file = |keep: &dyn Fn(usize) -> bool| {
+                let mut f = String::from("osu file format v14\n\n[HitObjects]\n");
+                for (i, t) in lines.iter().enumerate() {
+                    if keep(i) {
+                        f.push_str(t);
+                        f.push('\n');
+                    }
+                }
+                f
+            };
+            let a = rosu_map::from_str::<HitObjects>(&file(&|_| true));
+            let b = rosu_map::from_str::<HitObjects>(&file(&|i| verdicts[i]));
+            let same_decode = matches!((&a, &b), (Ok(x), Ok(y)) if x == y);
+            (verdicts, with == without, same_decode)
+        });
+        s.cases += 1;
+        s.checks += 2;
+        match r {
+            Err(p) => s.mismatch("panic", json!({"run": run, "panic": p})),
+            Ok((verdicts, same_state, same_decode)) => {
+                if verdicts.iter().any(|v| !*v) {
+                    s.nontrivial_key(&format!("run{run}"));
+                }
+                if !same_state {
+                    s.mismatch("rejected-line-changes-later-objects", json!({"lines": lines, "verdicts": verdicts}));
+                } else if !same_decode {
+                    s.mismatch("decode(file)!=decode(file-minus-rejected)", json!({"lines": lines, "verdicts": verdicts}));
+                }
+            }
+        }
+    }
+    s.sample(json!({"runs": runs, "lines_per_run": nlines}));
 }
